@@ -1,14 +1,14 @@
 (* C25 family: c25_depth
    line: <mode> <hex doc> <hex expanded doc> <frags> <op>     (the model reads the last two fields)
-     sels  := sel*
-     sel   := 'f' name '(' sels ')'  |  'i(' sels ')'  |  's' name ';'
+     sels  := md_sel*
+     md_sel   := 'f' name '(' sels ')'  |  'i(' sels ')'  |  's' name ';'
      frags := '-' | name '=' sels ('|' name '=' sels)*
-   output: ok|err|panic  x=<expanded depth>|none  e=<expanded depth of the expansion>  old=<verdict of the
+   output: ok|err|panic  x=<expanded depth>|none  e=<expanded depth of the expansion>  old=<md_verdict of the
            model of the code before the D16 fix, informational> *)
 open Model
 open Util
 
-let c25_parse_sels (s : string) (pos : int ref) : sel list =
+let c25_parse_sels (s : string) (pos : int ref) : md_sel list =
   let n = String.length s in
   let read_name stop =
     let st = !pos in
@@ -29,23 +29,23 @@ let c25_parse_sels (s : string) (pos : int ref) : sel list =
       incr pos;
       let sub = sels () in
       incr pos;
-      SField (name, sub)
+      MdField (name, sub)
     | 'i' ->
       incr pos;
       let sub = sels () in
       incr pos;
-      SInline sub
+      MdInline sub
     | 's' ->
       let name = read_name [';'] in
       incr pos;
-      SSpread name
-    | _ -> failwith "c25 sel tag"
+      MdSpread name
+    | _ -> failwith "c25 md_sel tag"
   in
   let r = sels () in
   if !pos <> n then failwith "c25 trailing";
   r
 
-let c25_parse_frags (s : string) : (n list * sel list) list =
+let c25_parse_frags (s : string) : (n list * md_sel list) list =
   if s = "-" then [] else
   List.map (fun d ->
       let i = String.index d '=' in
@@ -61,12 +61,12 @@ let c25_depth (line : string) : string =
     let frs = c25_parse_frags frags in
     let op = if op = "-" then [] else c25_parse_sels op (ref 0) in
     let fuel = nat_of_int (64 + String.length line) in
-    let v = match check_max_depth fuel frs op with
-      | VOk -> "ok" | VErr -> "err" | VPanic -> "panic" | VOutOfFuel -> "model-outoffuel" in
-    let x = match xdepth fuel frs op with Some x -> string_of_int (int_of_n x) | None -> "none" in
-    let k = match check_max_depth_old fuel frs op with
-      | VOk -> "ok" | VErr -> "err" | VPanic -> "panic" | VOutOfFuel -> "model-outoffuel" in
-    let e = match expand fuel frs op, xdepth fuel [] (match expand fuel frs op with Some e -> e | None -> []) with
+    let v = match md_check_max_depth fuel frs op with
+      | MdVOk -> "ok" | MdVErr -> "err" | MdVPanic -> "panic" | MdVOutOfFuel -> "model-outoffuel" in
+    let x = match md_xdepth fuel frs op with Some x -> string_of_int (int_of_n x) | None -> "none" in
+    let k = match md_check_max_depth_old fuel frs op with
+      | MdVOk -> "ok" | MdVErr -> "err" | MdVPanic -> "panic" | MdVOutOfFuel -> "model-outoffuel" in
+    let e = match md_expand fuel frs op, md_xdepth fuel [] (match md_expand fuel frs op with Some e -> e | None -> []) with
       | Some _, Some y -> string_of_int (int_of_n y) | _ -> "none" in
     Printf.sprintf "%s x=%s e=%s old=%s" v x e k
   | _ -> failwith "c25_depth line"
